@@ -47,7 +47,8 @@ MINIMUMS = {
 FNS = [kinds.node, kinds.node2, kinds.posnode, kinds.two, kinds.three, kinds.Base, kinds.Mid,
        kinds.target3, kinds.PosInit, kinds.tagged_fn, kinds.tagged_pos_fn, kinds.DC, kinds.DCTagged,
        kinds.WithMethods.make, kinds.WithMethods.smake, sigs.g_a1_b2_va_k_vk, sigs.g_ab_c_va,
-       dup1.same, dup2.same, dup1.same, dup2.same]     # same leaf name in two modules
+       dup1.same, dup2.same, dup1.same, dup2.same,     # same leaf name in two modules
+       kinds.Meth.cmake, kinds.MethSub.cmake]          # inherited classmethod reached through a subclass
 
 
 def plan(tier):
@@ -318,7 +319,7 @@ def make_value(rng, acc):
   leaves = [rand_leaf(rng, acc) for _ in range(12)]
   opts = gen.Opts(max_nodes=rng.choice([1, 3, 6, 10]), max_depth=4, p_share=0.3, p_clone=0.05,
                   btypes=['Config', 'Config', 'Partial'], fns=FNS, lattice=0.1, leaves=leaves,
-                  containers=['list', 'tuple', 'dict', 'dict', 'point', 'pair', 'defaultdict'],
+                  containers=['list', 'tuple', 'dict', 'dict', 'point', 'pair', 'defaultdict', 'dictobj'],
                   tagged_values=True, explicit_tags=0.4, p_container=0.4,
                   dict_keys=[rand_key(rng) for _ in range(6)], uid=False)
   g = gen.DagGen(rng, opts)
